@@ -37,6 +37,8 @@ KINDS = {
     "varint": (["name", "VarInt"], "unsizable"), "cstring": (["CString", "ascii"], "unsizable"),
     "default": (["Default", B, 7], "fixed"), "padded": (["Padded", 3, B], "fixed"), "flag": (["name", "Flag"], "fixed"),
     "const": (["Const", tag(b"\x7f"), None], "fixed"), "padding": (["Padding", 2], "fixed"),
+    # an anonymous member that ends the structure early when the keyword context says so
+    "stopif": (["StopIf", ["this", "_params", "stop"]], "unsizable"),
     # members of width 0 that look at the stream (their value depends on where they are evaluated)
     "tell": (["name", "Tell"], "fixed"), "peek": (["Peek", B], "fixed"), "peek16": (["Peek", ["name", "Int16ub"]], "fixed"),
     # aligned members: payload an exact multiple of the modulus, a non-multiple, and a record
@@ -185,6 +187,10 @@ def case_lazystruct(ctx, case):
         return
     ev = e[1]
     seqv = seq.parse_stream(TracedStream(data, pos=off), **kw)
+    # a StopIf may have ended the structure early: only the members that were reached exist, in the eager result as in the lazy one
+    names = [n for n in names if n in ev]
+    hist = [a for a in hist if not (a[0] in ("name", "attr") and a[1] not in ev) and not (a[0] == "index" and not -len(seqv) <= a[1] < len(seqv))]
+    stopped = len(seqv) < len(ms)
     sl = TracedStream(data, pos=off)
     l = outcome(lambda: lazy.parse_stream(sl, **kw))
     cls = case.get("cls", "canonical")
@@ -503,10 +509,12 @@ def gen_members(rng, maxn):
     n = rng.randint(1, maxn)
     ms = []
     for i in range(n):
-        if rng.random() < 0.22:
+        if i and rng.random() < 0.08:
+            ms.append([None, "stopif"])
+        elif rng.random() < 0.22:
             ms.append([None, rng.choice(UNNAMED_OK)])
         else:
-            k = rng.choice([k for k in KINDS if k not in ("const", "padding") and not k.startswith("idx")])
+            k = rng.choice([k for k in KINDS if k not in ("const", "padding", "stopif") and not k.startswith("idx")])
             ms.append([("_m%d" if rng.random() < 0.15 else "m%d") % i, k])        # (member names may start with an underscore)
     if not any(n for n, _ in ms):
         ms[0][0] = "m0"
@@ -519,13 +527,17 @@ def canonical(ms, rng):
     for n, k in ms:
         if n:
             val[n] = genval(k, rng)
-    kw = {"n": 2}
+    kw = {"n": 2, "stop": rng.random() < 0.5}
     # unnamed members that need a value cannot be built by Struct; encode member-wise instead
     out = b""
+    import construct as C
     for n, k in ms:
         v = val[n] if n else genval(k, rng)
         x = mk(KINDS[k][0])
-        out += x.build(v, **kw)
+        try:
+            out += x.build(v, **kw)
+        except C.StopFieldError:
+            break                          # the structure ends here: nothing behind it is encoded
     return out, kw
 
 
@@ -612,7 +624,7 @@ def run(ctx):
                         run_case(ctx, {"kind": "lazyarray", "member": [k for k in KINDS if KINDS[k][0] is elem][0], "count": count, "data": tag(buf), "offset": off, "kw": {}, "history": h, "cls": "canonical",
                                        "form": "const" if off == 0 else "ctx"})
     # Lazy(x) fields and LazyArray of every element kind
-    kinds = [k for k in KINDS if k not in ("const", "padding") and not k.startswith("idx")]
+    kinds = [k for k in KINDS if k not in ("const", "padding", "stopif") and not k.startswith("idx")]
     j = 0
     for k in kinds:
         for rep in range(ctx.pick(3, 20)):
